@@ -14,7 +14,8 @@ def main(tier, seed):
     chk = Check("C13", tier, seed, technique="relational DSE of the real main.py/make_X_and_G_respect_strong_wolfe/update_lbfgs_matrices with an update-function oracle (identity; switch to a second uninterpreted objective with rewritten gradients); z3 decides equality of terms / existence of a provenance chain; scenario replay on the real API")
     I, R = "harness.orch_rel:c13_identity", "harness.orch_rel:c13_rewrite"
     jobs = [(I, dict(K=2, ls_mode="unit", ftol="sym", ftarget=1)), (I, dict(K=2, ls_mode="lean", ftol="sym")),
-            (R, dict(K=2, ls_mode="unit", at=1)), (R, dict(K=3, ls_mode="unit", at=2, maxcor=2)), (R, dict(K=2, ls_mode="unit", at=0)), (R, dict(K=3, ls_mode="unit", at=3, maxcor=3))]
+            (R, dict(K=2, ls_mode="unit", at=1)), (R, dict(K=3, ls_mode="unit", at=2, maxcor=2)), (R, dict(K=2, ls_mode="unit", at=0)), (R, dict(K=3, ls_mode="unit", at=3, maxcor=3)),
+            (R, dict(K=1, ls_mode="unit", at=0, ck_pairs=2, maxcor=2)), (R, dict(K=2, ls_mode="unit", at=0, ck_pairs=1, maxcor=2))]
     if tier != "quick":
         jobs += [(I, dict(K=3, ls_mode="unit", ftol="sym", ftarget=1)), (R, dict(K=3, ls_mode="unit", at=1, maxcor=2)),
                  (R, dict(K=4, ls_mode="unit", at=3, maxcor=3)), (R, dict(K=4, ls_mode="unit", at=2, maxcor=2)), (R, dict(K=3, ls_mode="lean", at=2, maxcor=2))]
